@@ -341,6 +341,25 @@ def check(prop, tier, seed):
     wd = workdir(prop)
     cases = cfg["cases"][tier]
     summaries, died, timed_out = run_shards(binary, prop, tier, seed, cases, wd)
+    # the same monitor again in a build with other cargo features of bpaf (fewer cases): what a
+    # real process prints also depends on features such as dull-color / bright-color
+    for variant in cfg.get("extra_variants", []):
+        b2 = build(variant)
+        if b2 is None:
+            say("INCONCLUSIVE property=%s reason=harness build failed (variant %s)" % (prop, variant))
+            return 2
+        wd2 = workdir(prop + "-" + variant)
+        s2, d2, t2 = run_shards(b2, prop, tier, seed + 7919, max(NSHARDS, cases // 4), wd2)
+        for s in s2:
+            for v in s["violations"]:
+                v["signature"] = "%s-build:%s" % (variant, v["signature"])
+            s["by_signature"] = {"%s-build:%s" % (variant, k): n
+                                 for k, n in s["by_signature"].items()}
+            s["counters"] = {("%s-build:%s" % (variant, k)): n for k, n in s["counters"].items()}
+            s["samples"] = []
+        summaries += s2
+        died += d2
+        timed_out += t2
     merged = merge(summaries)
     distinct = count_distinct(binary, wd, "hashes")
     definitions = count_distinct(binary, wd, "defs")
